@@ -519,6 +519,8 @@ def query_order(repo, rep):
 
 
 def run(repo, rep, tier):
+    from .round7b import hygiene
+    hygiene(repo, rep, "C14", ('wavespectra.core.select', 'wavespectra.specdataset'), falsy=True)
     rep.rule("R-C14-8", "every parameter of the functions behind this property is read (site selection): none is accepted and then ignored, and no control parameter (cutoff, limit, tolerance, window, count, switch) is replaced by another value before use (coercion and default filling aside)")
     from .shared import unused_parameters
     unused_parameters(repo, rep, "R-C14-8", ("wavespectra.core.select", "wavespectra.specdataset.SpecDataset.sel"), "site selection")
